@@ -282,6 +282,8 @@ class JordanCurve:
                 j = (i + 1) % nsegments
                 seg0 = segments[i]
                 seg1 = segments[j]
+                if seg0.degree != seg1.degree:
+                    continue  # Cannot unite
                 try:
                     start_point = seg0.ctrlpoints[0]
                     end_point = seg1.ctrlpoints[-1]
